@@ -154,6 +154,8 @@ type Exec struct {
 	splitPathRun     bool
 	pendingAll       bool
 	declaredAll      bool
+	allocChecked     bool    // C18: allocation sizes must be justified
+	availLens        []*Term // lengths of input already in hand (len of []byte inputs, Len() of readers)
 }
 
 type modEntry struct {
